@@ -375,6 +375,9 @@ def main(tier, replay=None, rep=None, prop=PROP, cases=None):
         # tactic 3's change of variables (what it hands to tactic 1), spec/Tactic3.tla
         n_t3, _ = drift_tier(PROP, "tactic-3", lambda: __import__("t3drv").conformance(rep, rd, PROP, tier))
         n_disp += n_t3
+        # the reduction step tactics 1 and 5 share once the rows are chosen (solve as equalities, substitute), spec/ContextReduction.tla
+        n_cr, _ = drift_tier(PROP, "context-reduction", lambda: __import__("crdrv").conformance(rep, rd, PROP, tier))
+        n_disp += n_cr
     shutil.rmtree(rd, ignore_errors=True)
     if collect:
         return {"evaluations": n_ev, "nontrivial": nontrivial, "traces": len(traces), "verdict_counts": counts}
